@@ -18,6 +18,7 @@ FIXED = [
     ("T", ["C12"], "713ee47", "mxsys._check_sanity() failed after `model.r = space` (model-level reference to a modelx object)"),
     ("Z", ["C12"], "a821d82", "mxsys._check_sanity() failed on a consistent model with same-named spaces at different levels (B.Ch and B.Gc.Ch)"),
     ("B", ["C03"], "ea50013", "redefining a base cells overwrote defined overrides and copies derived from an override in between"),
+    ("II", ["C03"], "78fad33", "defining a derived cells (formula or cached flag) in the middle of an inheritance chain updated the subs with the changed property only: a sub for which it became the nearest defined base kept the formula / cached flag of its former base"),
     ("D", ["C03"], "4daecfe", "a cells newly defined in a nearer base was ignored by subs deriving the name from a farther base"),
     ("E", ["C03", "C10"], "379b44b", "new_ref/change_ref stopped at the first sub with its own definition; sibling subs kept stale derived references"),
     ("a", ["C02"], "8d85db5", "a space-level reference starting to shadow a model-level one did not clear values reading `<space>.<name>` by attribute path"),
